@@ -40,7 +40,8 @@ Recipients == [i \in Items |-> IF i = "m1" THEN <<"grp">> ELSE <<>>]
 ActorOf == [i \in Items |-> IF Kind[i] # "activity" THEN "none" ELSE IF World = "w1" THEN "alice" ELSE "carol"]
 TargetOf == [i \in Items |-> CASE i = "a1" -> "n1" [] i = "a2" -> "n3" [] i = "c1" -> "m1" [] i = "c2" -> "m2"
                                 [] i = "c3" -> "m3" [] i = "c4" -> "m4" [] i = "c5" -> "m5" [] OTHER -> "none"]
-NLinks == [i \in Items |-> CASE i = "n1" -> 2 [] i = "alice" -> 1 [] i = "m1" -> 1 [] i = "q4" -> 12 [] OTHER -> 0]
+NLinks == [i \in Items |-> CASE i = "n1" -> 4 []     \* (two links in its text and two attachments: 3 and 4 are the attachments)
+                                 i = "alice" -> 1 [] i = "m1" -> 1 [] i = "q4" -> 12 [] OTHER -> 0]
 (* what opening link k of item i internally yields *)
 (* q4 (w2) carries twelve links so that two-digit and zero-padded numbers name something: 8 -> q1, 10 -> q3 *)
 LinkTarget == [i \in Items |-> [k \in 1..12 |-> CASE i = "n1" /\ k = 1 -> "n3" [] i = "alice" /\ k = 1 -> "n3"
